@@ -100,10 +100,18 @@ def path_ends(ev, f, before):
 def exit_envs(f, inn, before):
     """(return stmt or None, env at that return, point)"""
     out = []
+    seen = set()
     for r in q.returns(f):
         p = f.cfg.point_of(r['i'])
         if p in before and before[p] is not None:
             out.append((r, before[p], p))
+            seen.add(p[0])
+    # the implicit return at the end of a void function: the state at the end of every other block that flows into the exit
+    for b in f.cfg.blocks.values():
+        if f.cfg.exit in [s_ for s_ in b.succ if s_ is not None] and b.id not in seen:
+            endp = (b.id, len(b.el))
+            if before.get(endp) is not None:
+                out.append((None, before[endp], endp))
     return out
 
 
@@ -288,6 +296,24 @@ def r4_independence(ctx, prog):
             bad = True
     alias = [a for a, rhs in q.assigns(c, 'Buffer::buffer_ptr_') if any('other' in x for x in q.subtree_paths(c, rhs))]
     ctx.ob('C07.R4', '%s|own-storage' % c.name, not bad and not alias, 'after cloneFrom buffer_ptr_ is a fresh block or null on every path, never the source\'s pointer', where=c.loc(c.body))
+    # self-assignment (b = b): the affine forms treat `other` as a different object, so aliasing is decided separately: either the copy-assignment
+    # operator excludes this == &other, or cloneFrom reads everything it needs from `other` before it changes or releases anything of its own
+    own_muts = [st for st in c.stmts if st and ((st['k'] == 'CXXDeleteExpr' and (c.field_of(st['ch'][0]) or '').endswith('buffer_ptr_')) or
+                (st['k'] == 'MemberExpr' and st.get('n') in TRACKED and (c.s(c.strip_casts(st['ch'][0])) or {'k': 'CXXThisExpr'})['k'] == 'CXXThisExpr' and locks.classify_access(c, st['i']) == 'w'))]
+    other_reads = [st for st in c.stmts if st and st['k'] == 'DeclRefExpr' and st.get('n') == c.params[0]['n']]
+    late = [r_ for r_ in other_reads if q.pt(c, r_) is not None and any(q.pt(c, m) is not None and c.cfg.exists_path(q.pt(c, m), q.pt(c, r_)) for m in own_muts)]
+    guarded = False
+    for f in prog.methods_of(B):
+        if f.short == 'operator=' and f.params and f.params[0]['ct'].endswith('Buffer &') and not f.params[0]['ct'].endswith('&&'):
+            for call in q.calls(f, callee=B + '::cloneFrom'):
+                for cond, k, b in f.cfg.controlling_branches(q.pt(f, call)):
+                    txt = q.expr_text(f, cond)
+                    if 'this' in txt and f.params[0]['n'] in txt and ((('!=' in txt) and k == 0) or (('==' in txt) and k == 1)):
+                        guarded = True
+    ctx.ob('C07.R4', '%s|self-assignment' % c.name, guarded or not late,
+           'copy-assignment excludes this == &other' if guarded else 'cloneFrom reads all it needs from the source before it changes its own fields (alias-safe)' if not late else
+           'cloneFrom reads the source (%s) after it has already changed its own fields, and operator= does not exclude self-assignment: `b = b` on a partly consumed buffer '
+           'computes the new size from the updated indices' % c.loc(late[0]['i']), where=c.loc(late[0]['i'] if late else c.body))
     s = prog.fn1(B + '::swap')
     sw = [st for st in s.calls() if st.get('callee', '').startswith('std::swap')]
     names = sorted({s.path(a).split('.')[-1] for st in sw for a in st['args']})
@@ -302,10 +328,41 @@ def r4_independence(ctx, prog):
             ctx.ob('C07.R4', '%s(&&)|move-is-swap' % f.name, ok, 'move leaves the source with this object\'s previous (empty/reset) state', where=f.loc(f.body))
 
 
+def r5_commit_after_alloc(ctx, prog):
+    ctx.rule('C07.R5', 'A8+A4 strong guarantee on allocation failure: in every Buffer method a new[] (which may throw std::bad_alloc) is reached before the object gives up '
+             'anything — no delete[] of its storage and no store to buffer_ptr_/buffer_size_/the indices on a path from entry to the allocation; otherwise a failed '
+             'allocation leaves a buffer whose size/indices describe storage it no longer has and the next operation writes through a null or dangling pointer', floor=2)
+    n = 0
+    for f in prog.methods_of(B):
+        news = [st for st in f.stmts if st and st['k'] == 'CXXNewExpr']
+        if not news or f.d.get('ctor') and not f.params:
+            continue
+        muts = []
+        for st in f.stmts:
+            if not st:
+                continue
+            if st['k'] == 'CXXDeleteExpr' and (f.field_of(st['ch'][0]) or '').endswith('buffer_ptr_'):
+                muts.append((st, 'delete[] buffer_ptr_'))
+            if st['k'] == 'MemberExpr' and st.get('n') in TRACKED and (f.s(f.strip_casts(st['ch'][0])) or {'k': 'CXXThisExpr'})['k'] == 'CXXThisExpr' and locks.classify_access(f, st['i']) == 'w':
+                muts.append((st, 'store to ' + st['n']))
+        for nw in news:
+            n += 1
+            np_ = q.pt(f, nw)
+            early = [(st, what) for st, what in muts if q.pt(f, st) is not None and np_ is not None and f.cfg.exists_path(q.pt(f, st), np_)]
+            # a constructor's own object has no earlier state to lose
+            ok = not early or bool(f.d.get('ctor'))
+            ctx.ob('C07.R5', '%s|new@%d' % (f.name, nw['l'] - f.line), ok, 'nothing of the object is released or overwritten before the allocation' if ok else
+                   '%s at %s happens before the allocation at line %d: if new[] throws, the buffer keeps size/indices for storage it has already given up' %
+                   (early[0][1], f.loc(early[0][0]['i']), nw['l']), where=f.loc(nw['i']))
+    if n < 2:
+        raise AnalysisBroken('expected >= 2 allocations inside Buffer (ensureWritableSize, cloneFrom), found %d' % n)
+
+
 def run(ctx):
     prog = extract('ALL' if ctx.tier == 'thorough' else SCOPE)
     ctx.guard(r1_invariant, ctx, prog)
     ctx.guard(r2_copies, ctx, prog)
     ctx.guard(r3_post, ctx, prog)
     ctx.guard(r4_independence, ctx, prog)
+    ctx.guard(r5_commit_after_alloc, ctx, prog)
     return prog
